@@ -924,6 +924,32 @@ func (in *interp) runStub(fr *frame, fi *fnInfo, args []value) value {
 			return mk(func(t types.Type, i int) value { return in.freshOfType(t, "uf."+fi.name, n) })
 		})
 		return copyDeep(r)
+	case "ufwrite":
+		// f(o interface{}, w io.Writer, n *int, err *error): write an injective UF of o to w
+		n := 8
+		if len(parts) > 1 {
+			fmt.Sscan(parts[1], &n)
+		}
+		r := in.ufApply(fi.name, true, args[:1], func() value {
+			out := make([]value, n)
+			for i := range out {
+				out[i] = in.freshVar("uf."+fi.name, 8)
+			}
+			return out
+		})
+		w, ok := args[1].(iface)
+		if !ok || w.t == nil {
+			in.unsupported("ufwrite: writer is not an interface value")
+		}
+		wf := in.prog.LookupMethod(w.t, nil, "Write")
+		if wf == nil {
+			in.unsupported("ufwrite: writer has no Write method")
+		}
+		in.callSSA(fr, 0, wf, []value{w.v, copySlice(r)}, nil)
+		if p, ok := args[2].(*value); ok && p != nil {
+			*p = in.ts.Bin(OpAdd, in.asTerm(*p, "n"), in.ts.BVi(int64(n), 64))
+		}
+		return nil
 	case "true":
 		return in.ts.True
 	case "false":
